@@ -142,6 +142,9 @@ def class_source(cls) -> str:
     head = "class C0[T](State):" if cls["generic"] else "class C0(State):"
     if not lines:
         lines = ["    pass"]
+    if cls.get("derived") and not cls["generic"]:
+        # a derived class that declares one more attribute and inherits the rest: it is the class under test then
+        lines = [*lines, "class C0D(C0):", "    hv_extra: int = 0"]
     # postponed evaluation of annotations (PEP 563): every annotation reaches the library as a string. Only for
     # non-generic classes: typing.get_type_hints of Python 3.12.1 cannot see PEP 695 type parameters from strings.
     future = ["from __future__ import annotations"] if cls.get("future") and not cls["generic"] else []
@@ -196,13 +199,15 @@ def V(kind, **kw):
 
 
 class Env:
-    __slots__ = ("cls", "targ", "var")
+    __slots__ = ("cls", "targ", "var", "base")
 
-    def __init__(self, cls=None, targ=None, var=None):
-        self.cls, self.targ, self.var = cls, targ, var
+    def __init__(self, cls=None, targ=None, var=None, base=None):
+        # cls: the class under test (what `Self` means); base: its base class when the class under test is a DERIVED class
+        # that inherits every attribute (then an instance of the base is not a `Self`)
+        self.cls, self.targ, self.var, self.base = cls, targ, var, base
 
     def with_var(self, var):
-        return Env(self.cls, self.targ, var)
+        return Env(self.cls, self.targ, var, self.base)
 
 
 def build(v, env: Env):
@@ -246,6 +251,8 @@ def build(v, env: Env):
         return cls(v=build(v["val"], env), items=[build(x, env) for x in v.get("items", [])])
     if k == "selfinst":
         return env.cls(**{n: build(x, env) for n, x in v["f"].items()})
+    if k == "baseinst":
+        return (env.base or env.cls)(**{n: build(x, env) for n, x in v["f"].items()})
     if k == "list":
         return [build(x, env) for x in v["items"]]
     if k == "tuple":
@@ -753,6 +760,9 @@ def gen_value(draw, t, ctx, depth=0):
             if sub is None:
                 return None
             f[a["name"]] = sub
+        if ctx.get("derived") and draw(st.integers(0, 1)) == 0:
+            # the class under test is derived: an instance of its BASE class in a `Self` position (not a Self)
+            return V("baseinst", f=f)
         return V("selfinst", f=f)
     if k == "tvar":
         if ctx.get("targ") is None:
